@@ -83,6 +83,11 @@ def gstep (s : St) : Mi → M St
     match s.temps with
     | a :: b :: rest => pure { s with temps := b :: a :: rest }
     | _ => throw .misuse
+  | .inplace _ => pure s
+  | .settext d w =>
+    match s.heap[d]? with
+    | some cell => pure (s.setCell d { cell with text := w })
+    | none => throw .misuse
 
 def grun (s : St) : List Mi → M St
   | [] => pure s
@@ -115,8 +120,36 @@ def specSweep (s : St) : List Nat → M St
   | [] => pure s
   | k :: ks => do specSweep (← specRun s (fireProg s k)) ks
 
+/-- strings are VALUES: an operation that "modifies" the string of one variable gives that variable a new string;
+    every other holder keeps the old text.  (Whether the implementation may reuse the block is its business; the
+    specification never does.) -/
+def valueText (s : St) (op : Op) : Option (Nat × String) :=
+  match op with
+  | .sappend d w => (strSlot s d).map (fun (_, cell) => (d, cell.text ++ w))
+  | .sjoin d t =>
+    match strSlot s d, strSlot s t with
+    | some (_, cell), some (_, tcell) => some (d, cell.text ++ tcell.text)
+    | _, _ => none
+  | .sadd d a w => (strSlot s a).map (fun (_, cell) => (d, cell.text ++ w))
+  | .schar d i w => (strSlot s d).map (fun (_, cell) => (d, setCharAt cell.text i w))
+  | .srange d i j w => (strSlot s d).map (fun (_, cell) => (d, setRange cell.text i j w))
+  | _ => none
+
 /-- `none` = the operation is not applicable (the implementation must print `skip`) -/
 def specStep (s : St) (op : Op) : Option (M St) :=
+  match valueText s op with
+  | some (d, w) =>
+    (compile s op).map (fun _ =>
+      -- bookkeeping only: a run-time string with ONE holder that keeps its length keeps its identity in the trace
+      -- (giving the single holder a new value and overwriting the bytes are the same thing)
+      match op, strSlot s d with
+      | .schar _ _ _, some (c, cell) =>
+        if cell.kind == .mstr && cell.ref == 1 then specRun s [.settext c w] else specRun s (replaceStr d w)
+      | .srange _ _ _ _, some (c, cell) =>
+        if cell.kind == .mstr && cell.ref == 1 && w.length == cell.text.length then specRun s [.settext c w]
+        else specRun s (replaceStr d w)
+      | _, _ => specRun s (replaceStr d w))
+  | none =>
   match op with
   | .sweep => some (specSweep s (List.range nCalls))
   | .err _ _ => some (pure s)
@@ -164,7 +197,9 @@ def noteRanges (j : JSt) (s : St) : JSt :=
     | some cell => cell.live && !cell.kind.isStr && cell.ref ≥ 2 ^ W
     | none => false)
   let imm := idxs.filter (fun c => match s.heap[c]? with
-    | some cell => cell.live && cell.kind.isStr && cell.ref ≥ 2 ^ SW
+    -- transient copies (a pushed operand, an argument on the stack) count while an operation runs: a string within
+    -- a few holders of the limit may saturate (and become immortal) during the operation
+    | some cell => cell.live && cell.kind.isStr && cell.ref + 8 ≥ 2 ^ SW
     | none => false)
   { j with wrap := j.wrap || over, immortal := j.immortal ++ imm.filter (fun c => !j.immortal.contains c) }
 
@@ -257,6 +292,24 @@ def judgeNames (j : JSt) (s : St) (ff : String) : JSt :=
       else j
     | none => j.flag s!"trace-mismatch op={j.idx} field={ff}"
 
+/-- value-level oracle: the text every variable sees is the text the specification gave it -/
+def judgeTexts (j : JSt) (s : St) (tf : String) : JSt := Id.run do
+  let mut j := j
+  let got := (tf.drop 2).toString.splitOn ","
+  if got.length != nSlots then
+    return j.flag s!"trace-mismatch op={j.idx} field={tf}"
+  for (i, g) in (List.range nSlots).zip got do
+    let want := match strSlot s i with
+      | some (_, cell) => (cell.text, cell.ref)
+      | none => ("-", 0)
+    if g != want.1 && !j.flagged.contains "text" then
+      j := { j with flagged := "text" :: j.flagged }
+      if want.2 > 1 then
+        j := j.flag s!"modified-while-shared op={j.idx} slot={i} text={g} expected={want.1} holders={want.2}"
+      else
+        j := j.flag s!"text-mismatch op={j.idx} slot={i} text={g} expected={want.1}"
+  return j
+
 def judgeLine (j : JSt) (op : Option Op) (line : String) : JSt :=
   if j.stop then j else
   let j := { j with idx := j.idx + 1 }
@@ -277,9 +330,10 @@ def judgeLine (j : JSt) (op : Option Op) (line : String) : JSt :=
   | some (.ok s') =>
     let j := noteRanges (noteRanges j j.s) s'
     match toks line with
-    | ["ok", r, st, pf, ff] =>
+    | ["ok", r, st, pf, ff, tf] =>
       match parseField "r:" r, parseField "st:" st with
-      | some rs, some sts => { (judgeNames (judgeProg (judgeOk j s' rs sts) s' pf) s' ff) with s := s' }
+      | some rs, some sts =>
+        { (judgeTexts (judgeNames (judgeProg (judgeOk j s' rs sts) s' pf) s' ff) s' tf) with s := s' }
       | _, _ => { (j.flag s!"trace-mismatch op={j.idx} line={line}") with stop := true }
     | ["skip"] => { (j.flag s!"trace-mismatch op={j.idx} got=skip") with stop := true }
     | _ =>
